@@ -7,7 +7,7 @@ import time
 import facts
 import mir
 
-CHECKS = ["C05", "C06", "C07", "C08", "C10", "C11", "C13", "C14", "C18", "C19", "C20"]
+CHECKS = ["C05", "C06", "C07", "C08", "C10", "C11", "C12", "C13", "C14", "C18", "C19", "C20"]
 
 
 def load(config="default", want_clvmr=False, bins=False):
